@@ -6,7 +6,8 @@
 //!   merge a b | marr a b | isreset a | strip a | hasany a | validate a | parse <enc toml text>
 //!   resolve <noext> <enc path> item..   with item = file;<path>;<canon|!>;M|T <enc text>
 //!                                                  | remote;<enc url>;<enc cache text>   (offline cache)
-//!   fetch <policy> <now|real> <cache> <expected|!> <server>       (cache: ! absent, = keep, mtime:enc)
+//!   fetch <policy> <now|real> <cache> <expected|!> <server>       (cache: ! absent, = keep, mtime:enc text,
+//!         G<mtime>:<bytes, comma separated> a file whose bytes are not UTF-8, D<mtime> a directory at the entry path)
 //!   hash <enc text>
 //! Every case runs under catch_unwind.
 use sgv::{dec, enc, quiet_panics};
@@ -118,6 +119,12 @@ fn fmt_err(e: &SlocGuardError) -> String {
             }
             if m.starts_with("Remote config cache miss in offline mode") {
                 return "ERR Remote 1".to_string();
+            }
+            // an inheritance key that is present but not a string (fixes D66 / D68)
+            for key in ["extends", "extends_sha256"] {
+                if m.starts_with(&format!("'{key}' must be a string")) {
+                    return format!("ERR BadKey {}", enc(key));
+                }
             }
             format!("ERR Config {}", enc(m))
         }
@@ -271,20 +278,50 @@ fn mtime_secs(p: &Path) -> Option<u64> {
 }
 
 fn set_mtime(p: &Path, secs: u64) {
-    let f = std::fs::OpenOptions::new().write(true).open(p).expect("open");
+    // a directory cannot be opened for writing; futimens does not need a writable descriptor
+    let f = if p.is_dir() {
+        std::fs::File::open(p).expect("open dir")
+    } else {
+        std::fs::OpenOptions::new().write(true).open(p).expect("open")
+    };
     f.set_modified(SystemTime::UNIX_EPOCH + Duration::from_secs(secs))
         .expect("set_modified");
 }
 
-fn read_cache_state(p: &Path) -> String {
+/// Remove whatever sits at the entry path (file or directory).
+fn clear_entry(p: &Path) {
+    if p.is_dir() {
+        let _ = std::fs::remove_dir_all(p);
+    } else {
+        let _ = std::fs::remove_file(p);
+    }
+}
+
+/// `<stamp>:<enc text>` for a text file, `G<stamp>:<bytes>` for a file that is not UTF-8,
+/// `D<stamp>` for a directory, `!` when nothing is there.
+fn entry_state(p: &Path, stamp: u64) -> String {
+    if p.is_dir() {
+        return format!("D{stamp}");
+    }
     match std::fs::read(p) {
-        Ok(bytes) => format!(
-            "{}:{}",
-            mtime_secs(p).unwrap_or(0),
-            enc(&String::from_utf8_lossy(&bytes))
-        ),
+        Ok(bytes) => match String::from_utf8(bytes) {
+            Ok(text) => format!("{stamp}:{}", enc(&text)),
+            Err(e) => {
+                let b = e.into_bytes();
+                let body = if b.is_empty() {
+                    "-".to_string()
+                } else {
+                    b.iter().map(u8::to_string).collect::<Vec<_>>().join(",")
+                };
+                format!("G{stamp}:{body}")
+            }
+        },
         Err(_) => "!".to_string(),
     }
+}
+
+fn read_cache_state(p: &Path) -> String {
+    entry_state(p, mtime_secs(p).unwrap_or(0))
 }
 
 fn fetch_case(f: &[&str], scratch: &Path) -> (String, String, u64) {
@@ -322,14 +359,32 @@ fn fetch_case(f: &[&str], scratch: &Path) -> (String, String, u64) {
             preset_mtime = mtime_secs(&cp);
         }
         "!" => {
-            let _ = std::fs::remove_file(&cp);
+            clear_entry(&cp);
         }
         c => {
-            let (m, b) = c.split_once(':').expect("cache");
-            std::fs::write(&cp, dec(b)).expect("write");
-            // real clock: the field is the AGE of the entry in seconds
-            let m: u64 = m.parse().expect("mtime");
-            let stamp = if real { now - m } else { m };
+            clear_entry(&cp);
+            // real clock: the stamp field is the AGE of the entry in seconds
+            let stamp_of = |m: &str| -> u64 {
+                let m: u64 = m.parse().expect("mtime");
+                if real { now - m } else { m }
+            };
+            let stamp = if let Some(m) = c.strip_prefix('D') {
+                std::fs::create_dir(&cp).expect("mkdir entry");
+                stamp_of(m)
+            } else if let Some(rest) = c.strip_prefix('G') {
+                let (m, b) = rest.split_once(':').expect("cache");
+                let bytes: Vec<u8> = if b == "-" {
+                    Vec::new()
+                } else {
+                    b.split(',').map(|t| t.parse::<u8>().expect("byte")).collect()
+                };
+                std::fs::write(&cp, bytes).expect("write");
+                stamp_of(m)
+            } else {
+                let (m, b) = c.split_once(':').expect("cache");
+                std::fs::write(&cp, dec(b)).expect("write");
+                stamp_of(m)
+            };
             set_mtime(&cp, stamp);
             preset_mtime = Some(stamp);
         }
@@ -363,14 +418,10 @@ fn fetch_case(f: &[&str], scratch: &Path) -> (String, String, u64) {
     }
     let state = if real {
         // report the age instead of the absolute time
-        match std::fs::read(&cp) {
-            Ok(bytes) => format!(
-                "{}:{}",
-                if written { 0 } else { now.saturating_sub(mtime_secs(&cp).unwrap_or(0)) },
-                enc(&String::from_utf8_lossy(&bytes))
-            ),
-            Err(_) => "!".to_string(),
-        }
+        entry_state(
+            &cp,
+            if written { 0 } else { now.saturating_sub(mtime_secs(&cp).unwrap_or(0)) },
+        )
     } else {
         read_cache_state(&cp)
     };
